@@ -474,10 +474,17 @@ fn push_glob(b: &[u8]) -> R {
     let raw: Raw<JsonValue> = Raw::new(&ev).map_err(|_| "serialize".to_string())?;
     let flat = FlattenedJson::from_raw(&raw);
     let mut out = Vec::new();
-    for key in ["content.body", "type", "sender", "room_id", "content.k\\.e\\\\y", pattern] {
-        let c = PushCondition::EventMatch { key: key.to_string(), pattern: pattern.to_string() };
-        out.push(c.applies(&flat, &ctx));
+    // the order in which the keys are tried depends on the input (a pattern is matched by words for
+    // `content.body` and against the whole value elsewhere; neither may leave anything behind for the other)
+    let keys = ["content.body", "type", "sender", "room_id", "content.k\\.e\\\\y", pattern];
+    let rot = value.len() % keys.len();
+    let mut by_key = vec![false; keys.len()];
+    for i in 0..keys.len() {
+        let k = (i + rot) % keys.len();
+        let c = PushCondition::EventMatch { key: keys[k].to_string(), pattern: pattern.to_string() };
+        by_key[k] = c.applies(&flat, &ctx);
     }
+    out.extend(by_key);
     let rule: ruma_common::push::PatternedPushRule = ruma_common::push::PatternedPushRuleInit {
         actions: vec![Action::Notify],
         default: false,
@@ -764,6 +771,44 @@ fn html_sanitize(b: &[u8]) -> R {
     Ok(sum(&format!("{before}|{strict}|{compat}|{plain}|{}", html4.to_string().len())))
 }
 
+thread_local! {
+    /// What a long-running process does: a few sanitizer configurations are built once (a base and
+    /// variants derived from clones of it through the builder methods) and then used for every
+    /// message. A configuration is a set of settings: using one must not affect what another - or
+    /// the same one, later - does.
+    static CONFIG_FAMILY: Vec<SanitizerConfig> = {
+        use ruma_html::{ListBehavior, PropertiesNames};
+        let base = SanitizerConfig::strict();
+        let compat = SanitizerConfig::compat();
+        vec![
+            base.clone(),
+            base.clone().allow_elements(["iframe", "select", "option", "title", "marquee", "script"], ListBehavior::Add),
+            base.clone().allow_elements(["p", "b", "a", "div"], ListBehavior::Override),
+            base.clone().remove_reply_fallback().allow_attributes([PropertiesNames { parent: "a", properties: &["href", "onclick"] }], ListBehavior::Override),
+            compat.clone(),
+            compat.clone().ignore_elements(["table", "blockquote"]).max_depth(5),
+            base.remove_elements(["h1", "ul"]).allow_classes([PropertiesNames { parent: "code", properties: &["x-*"] }], ListBehavior::Add),
+        ]
+    };
+}
+
+/// The document sanitised with every member of a family of long-lived configurations, in an order
+/// that depends on the input.
+fn html_sanitize_shared(b: &[u8]) -> R {
+    let s = utf8(b)?;
+    CONFIG_FAMILY.with(|family| {
+        let rot = s.len() % family.len();
+        let mut outs = vec![String::new(); family.len()];
+        for i in 0..family.len() {
+            let k = (i + rot) % family.len();
+            let html = Html::parse(s);
+            html.sanitize_with(&family[k]);
+            outs[k] = html.to_string();
+        }
+        Ok(sum(&outs.join("|")))
+    })
+}
+
 fn html_helpers(b: &[u8]) -> R {
     let s = utf8(b)?;
     let a = ruma_html::remove_html_reply_fallback(s);
@@ -849,6 +894,7 @@ pub static ENTRIES: &[Entry] = &[
     Entry { name: "sig.redact", traits: T_JSON | T_BYTES, f: sig_redact },
     Entry { name: "sig.from_der", traits: T_BYTES, f: sig_from_der },
     Entry { name: "html.sanitize", traits: T_HTML, f: html_sanitize },
+    Entry { name: "html.sanitize_shared", traits: T_HTML, f: html_sanitize_shared },
     Entry { name: "html.helpers", traits: T_HTML, f: html_helpers },
     Entry { name: "html.matrix", traits: T_HTML, f: html_matrix },
     Entry { name: "http.c.send_message", traits: h::T_REQ, f: h::c_send_message },
